@@ -158,3 +158,43 @@ def expectedWsChain : List (String × String) :=
    ("else", "week = np.asarray(val); sec = np.asarray(val2)")]
 
 end Midgard.TimeFormat
+
+namespace Midgard.TimeFormat
+open Midgard.TimeArith (JD Scale)
+open Midgard.TimeScale (Row)
+
+/-! ### The domain on which `Time(v, fmt="decimalyear")` succeeds -/
+
+/-- `datetime.min` / `datetime.max` (µs since 2000-01-01) -/
+def dtMin : DateTime := ofFields ⟨1, 1, 1, 0, 0, 0, 0⟩
+def dtMax : DateTime := ofFields ⟨9999, 12, 31, 23, 59, 59, 999999⟩
+
+inductive DyOutcome | ok (j : JD) | valueError | overflow
+  deriving Repr, DecidableEq
+
+/-- `Time(v, fmt="decimalyear", scale=…)`, with every way it is refused:
+* `datetime(year_int, 1, 1)` needs 1 ≤ year_int ≤ 9999 (ValueError);
+* in UTC `_year2days` builds the TAI images of the two New Years, and a Time in the datetime format carries its datetime:
+  an image before `datetime.min` is an OverflowError (year 1: the extrapolated drift of 1961 puts 0001-01-01 UTC a
+  quarter of an hour *before* 0001-01-01 TAI);
+* the constructor then reads the value back (`_jd2dy` → `_jd2dt`: `dt2000 + timedelta(days=jd1 - 2451544.5) +
+  timedelta(days=jd2)`); `jd1 = int(jd)` is a whole number, so the first sum is noon of the *previous* day — before
+  `datetime.min` for the first twelve hours of year 1 — and the result must not round beyond `datetime.max`
+  (OverflowError). -/
+def dyConstruct (tbl : List Row) (tol : Rat) (scale : Scale) (v : Rat) : DyOutcome :=
+  let y := truncRat v
+  if ¬ (1 ≤ y ∧ y ≤ 9999) then .valueError
+  else if scale = .utc ∧ y ≠ 9999 ∧ dtFromJds (TimeScale.utc2tai tbl tol ⟨yearStartJd1 y, 0⟩) < dtMin then .overflow
+  else
+    let j := dyToJds tbl tol scale v
+    if j.jd1 < 1721426 then .overflow
+    else if dtMax < dtFromJds j then .overflow
+    else .ok j
+
+/-- the decidable domain of the decimal-year constructor -/
+def dyAccepts (tbl : List Row) (tol : Rat) (scale : Scale) (v : Rat) : Bool :=
+  match dyConstruct tbl tol scale v with
+  | .ok _ => true
+  | _ => false
+
+end Midgard.TimeFormat
